@@ -18,6 +18,7 @@ type CNode struct {
 	// quant
 	Vars  []string
 	Types []string
+	Trigs [][]*CNode // explicit triggers: alternatives of multi-patterns
 	Pos   int
 }
 
@@ -219,6 +220,21 @@ func (ps *cparser) expr() *CNode {
 			break
 		}
 		ps.expect("::")
+		// optional triggers: { t1, t2 } { t3 } ... (each group one multi-pattern)
+		for ps.isOp("{") {
+			ps.next()
+			var grp []*CNode
+			for {
+				grp = append(grp, ps.iff())
+				if ps.isOp(",") {
+					ps.next()
+					continue
+				}
+				break
+			}
+			ps.expect("}")
+			n.Trigs = append(n.Trigs, grp)
+		}
 		n.Args = []*CNode{ps.expr()}
 		return n
 	}
